@@ -61,8 +61,8 @@ THEOREMS = ["C06c_spec_partial", "C06c_spec_holds_repaired", "C06c_enter_leak_co
             "C06c_exit_not_entered", "C06c_enter_twice_keeps_place", "C06c_values_need_lifo",
             "C06w_alternate_needs_no_raise",
             # hook-issued operations and revisits (Lib/ContextsHooks.lean), what `spec` claims after a misuse
-            "C06h_reduces_to_plain", "C06h_hook_enter_registered", "C06h_no_crash", "C06h_live_iteration_counterexample",
-            "C06h_live_iteration_last_is_silent", "C06h_composite_pause_order", "C06h_pause_walks_copy", "C06h_revisit_example",
+            "C06h_reduces_to_plain", "C06h_hook_enter_registered", "C06h_no_crash", "C06h_resume_walks_copy",
+            "C06h_composite_pause_order", "C06h_pause_walks_copy", "C06h_revisit_example",
             "C06h_revisit_resume_error_fails_task", "C06h_observer_silent_after_misuse",
             "C06h_spec_is_about_the_prefix"]   # in namespace AsynqModel.Contexts
 RULE = ("histories of context operations (enter / exit via manual __enter__/__exit__ in ANY order, suspend = yield of a real batch "
@@ -72,17 +72,20 @@ RULE = ("histories of context operations (enter / exit via manual __enter__/__ex
         "core context sets + sampled length 4-5 + random histories of 6-25 operations, replayed in the Lean model "
         "AsynqModel.Contexts; non-trivial = a suspension/continuation that calls a hook or changes a scoped value; distinct by "
         "hash of (contexts, history); plus histories over COMPOSITE contexts (real AsyncContext subclasses whose resume()/pause() "
-        "call member.__enter__()/__exit__() from inside the hook; resume() scripts only enter) and with `revisit` operations (the "
-        "task is suspended on several real batches at once: the scheduler visits it again after each flush), 13 fixed + random "
-        "histories of 3-18 operations, replayed in AsynqModel.Contexts.runH (Lib/ContextsHooks.lean)")
+        "call member.__enter__()/__exit__() from inside the hook; resume() AND pause() scripts both enter and leave, also contexts "
+        "the task has registered itself: both library loops walk over a copy) and with `revisit` operations (the task is suspended "
+        "on several real batches at once: the scheduler visits it again after each flush), 16 fixed + random histories of 3-18 "
+        "operations (composite-style scripts, free scripts, and histories that operate the members directly as well), replayed in "
+        "AsynqModel.Contexts.runH (Lib/ContextsHooks.lean)")
 TRUSTED = ["hand-written Lean model AsynqModel.Contexts (contexts.py, scoped_value.py, context bookkeeping of async_task.py) tied "
            "to the code by the differential run of harness/checks/ctxhist.py only",
-           "harness/checks/ctxhist.py: interpreter of a history on the real library (task body / flush body / top level)"]
+           "harness/checks/ctxhist.py: interpreter of a history on the real library (task body / flush body / top level)",
+           "hand-written Lean layer AsynqModel.Contexts.runH (Lib/ContextsHooks.lean: hook-issued __enter__/__exit__, both library "
+           "loops over a copy of task._contexts, revisit) tied to the code by the differential run of the ctxhist cases with a "
+           "\"hooks\" field only"]
 ASSUMPTIONS = ["ctxhist: one task; hooks fail with Exceptions at scripted call numbers; scoped-value overrides never raise",
                "ctxhist hooks: members of a composite have no hook actions themselves; one top-level task (hooks called by the "
-               "scheduler run while no task is active); the plan holds no resume() script that leaves a context (such a script "
-               "can make _resume_contexts raise RuntimeError out of the scheduler: C06h_live_iteration_counterexample, "
-               "ctxhist.CRASH_DEMOS)"]
+               "scheduler run while no task is active)"]
 CORE_CONFIGS = ["plain2", "ov-same", "ov-diff", "na-plain", "praise1", "rraise2"]
 NVARS = 2
 
@@ -240,9 +243,10 @@ def cases(tier, rng, focus=None):
 #   * the operation ["revisit"] (while the task is suspended): the task was suspended on SEVERAL real batches at once, the
 #     flush body of one of them returns, the real scheduler visits the still blocked task again (_resume_contexts,
 #     _pause_contexts) and flushes the next batch.
-# The check plan only holds scripts whose resume() part never LEAVES a context (theorem C06h_no_crash); a resume() hook that
-# unregisters a context of the task makes AsyncTask._resume_contexts raise RuntimeError out of the scheduler
-# (C06h_live_iteration_counterexample; CRASH_DEMOS below are replayed by tools, not by the check).
+# Scripts are free: resume() and pause() may both enter and leave anything (theorem C06h_no_crash: no scheduler operation lets
+# an exception out).  Until /repo commit 28d2b07 a resume() hook that unregistered a context of the task made
+# AsyncTask._resume_contexts (then a walk over the LIVE dict) raise RuntimeError out of the scheduler; the histories that showed
+# it (LIVE_DICT_DEMOS, theorem C06h_resume_walks_copy) are fixed histories of the plan now.
 def comp(members):
     return [[["enter", m] for m in members], [["exit", m] for m in reversed(members)]]
 
@@ -263,6 +267,15 @@ HOOK_CONFIGS = {
     "pause-enters": ([["plain", [], []], ["plain", [], []]], [[[], [["enter", 1]]], NOH]),
     "pause-leaves-only": ([["plain", [], []], ["plain", [], []]], [[[], [["exit", 1]]], NOH]),
     "resume-enters-only": ([["plain", [], []], ["plain", [], []], ["ov", 1, 7]], [[[["enter", 1], ["enter", 2]], []], NOH, NOH]),
+    # resume() scripts that LEAVE contexts (the region of the former live-dict defect)
+    "resume-leaves": ([["plain", [], []], ["plain", [], []], ["plain", [], []]], [[[["exit", 1]], []], NOH, NOH]),
+    "resume-leaves-reenters": ([["plain", [], []], ["plain", [], []], ["plain", [], []]], [[[["exit", 1], ["enter", 1]], []], NOH, NOH]),
+    "resume-swaps": ([["plain", [], []], ["plain", [], []], ["plain", [], []]],
+                     [[[["exit", 2], ["enter", 1]], [["exit", 1], ["enter", 2]]], NOH, NOH]),
+    "resume-leaves-ov": ([["plain", [], []], ["ov", 0, 5], ["plain", [], []], ["ov", 0, 6]], [NOH, NOH, [[["exit", 1], ["exit", 3]], []], NOH]),
+    "resume-leaves-raise": ([["plain", [], []], ["plain", [2], [2]], ["plain", [3], []]], [NOH, NOH, [[["exit", 1]], [["enter", 1]]]]),
+    "two-leavers": ([["plain", [], []], ["plain", [], []], ["plain", [], []], ["plain", [], []]],
+                    [[[["exit", 2]], []], [[["exit", 3]], [["exit", 2]]], NOH, NOH]),
     "no-hooks": ([["plain", [], []], ["plain", [], []]], [NOH, NOH]),
     "no-hooks-ov": ([["ov", 0, 1], ["plain", [2], []], ["ov", 0, 2]], [NOH, NOH, NOH]),
     "no-hooks-raise": ([["plain", [2, 3], []], ["plain", [], [2]]], [NOH, NOH]),
@@ -284,16 +297,17 @@ HOOK_FIXED = [
     ("shared-member", [["enter", 0], ["enter", 1], ["suspend"], ["continue"], ["exit", 1], ["exit", 0]]),
     ("comp2", [["suspend"], ["enter", 0], ["continue"], ["suspend"], ["continue"], ["exit", 0]]),      # entered in the flush body
 ]
-# NOT in the plan (the real library lets RuntimeError out of the scheduler; see C06h_live_iteration_counterexample)
-CRASH_DEMOS = [
+# the histories that showed the live-dict defect of _resume_contexts (repaired by /repo commit 28d2b07): 0's resume() leaves 1
+LIVE_DICT_DEMOS = [
     ([["plain", [], []], ["plain", [], []], ["plain", [], []]], [[[["exit", 1]], []], NOH, NOH],
      [["enter", 1], ["enter", 0], ["enter", 1], ["enter", 2], ["suspend"], ["continue"], ["enter", 1], ["exit", 2]]),
-    # the same mutation by the hook of the LAST registered context: the iteration is over, nothing is raised
+    # the same change made by the hook of the LAST registered context (was silent before the repair as well)
     ([["plain", [], []], ["plain", [], []], ["plain", [], []]], [[[["exit", 1]], []], NOH, NOH],
      [["enter", 1], ["enter", 0], ["exit", 0], ["enter", 1], ["enter", 2], ["suspend"], ["enter", 0], ["exit", 0], ["continue"], ["exit", 2]]),
     ([["plain", [], []], ["plain", [], []], ["plain", [], []]], [[[["exit", 1]], []], NOH, NOH],
      [["enter", 1], ["enter", 0], ["enter", 1], ["enter", 2], ["suspend"], ["revisit"], ["continue"]]),
 ]
+CRASH_DEMOS = LIVE_DICT_DEMOS          # (old name, tools/ctxhook_demo.py)
 
 
 def mk_hooks(ctxs, hooks, ops, origin):
@@ -301,11 +315,10 @@ def mk_hooks(ctxs, hooks, ops, origin):
 
 
 def hooks_ok(ctxs, hooks):
-    """members are leaves, only plain contexts have scripts, no resume() script leaves a context"""
+    """members are leaves, only plain contexts have scripts"""
     tg = set(a[1] for h in hooks for a in h[0] + h[1])
     return (len(hooks) == len(ctxs) and all(m < len(ctxs) and hooks[m] == NOH for m in tg)
-            and all(h == NOH or ctxs[i][0] == "plain" for i, h in enumerate(hooks))
-            and all(a[0] == "enter" for h in hooks for a in h[0]))
+            and all(h == NOH or ctxs[i][0] == "plain" for i, h in enumerate(hooks)))
 
 
 def random_hooks(rng, ctxs):
@@ -320,8 +333,12 @@ def random_hooks(rng, ctxs):
     for o in owners:
         ms = rng.sample(leaves, rng.randint(1, min(3, len(leaves))))
         style = rng.random()
-        if style < 0.7:
+        if style < 0.45:
             hooks[o] = comp(ms)
+        elif style < 0.7:
+            # free scripts: resume() and pause() both enter and leave
+            hooks[o] = [[[rng.choice(["enter", "exit", "exit"]), rng.choice(leaves)] for _ in range(rng.randint(1, 3))],
+                        [[rng.choice(["enter", "exit"]), rng.choice(leaves)] for _ in range(rng.randint(0, 3))]]
         elif style < 0.85:
             hooks[o] = [[["enter", m] for m in ms], [[rng.choice(["enter", "exit"]), rng.choice(leaves)] for _ in range(rng.randint(0, 3))]]
         else:
@@ -329,11 +346,28 @@ def random_hooks(rng, ctxs):
     return hooks
 
 
-def random_hook_history(rng, ctxs, hooks, n, tidy):
-    """like random_history, with revisits; `tidy` histories leave the members to their composites"""
+def leave_prefix(rng, hooks):
+    """the beginning of a history that brings the task INTO the region of the former live-dict defect: the contexts that a
+    resume() script leaves are entered by the body, then the owner of the script (its __enter__ runs the script: it leaves them),
+    then they are entered again - registered with the task AFTER the owner, so that the next continuation's resume loop leaves
+    contexts it has not reached yet"""
+    ops = []
+    for o, h in enumerate(hooks):
+        ts = sorted(set(a[1] for a in h[0] if a[0] == "exit"))
+        if ts and rng.random() < 0.85:
+            ops += [["enter", t] for t in ts] + [["enter", o]] + [["enter", t] for t in ts if rng.random() < 0.9]
+    return ops
+
+
+def random_hook_history(rng, ctxs, hooks, n, tidy, members_too=False, prefix=()):
+    """like random_history, with revisits; `tidy` histories leave the members to their composites - unless `members_too`: then
+    the body enters and leaves the members itself as well (so that hooks leave contexts the task has registered)"""
     tg = set(a[1] for h in hooks for a in h[0] + h[1])
-    tops = [c for c in range(len(ctxs)) if c not in tg] or list(range(len(ctxs)))
-    ops, open_, ph = [], [], "running"
+    tops = [c for c in range(len(ctxs)) if c not in tg or members_too] or list(range(len(ctxs)))
+    ops, open_, ph = [list(o) for o in prefix], [], "running"
+    for o in prefix:
+        if o[1] not in open_:
+            open_.append(o[1])
     for _ in range(n):
         if rng.random() < tidy:
             ch = []
@@ -367,8 +401,17 @@ def random_hook_history(rng, ctxs, hooks, n, tidy):
 def hook_cases(tier, rng, focus=None):
     names = sorted(c for c in HOOK_CONFIGS if focus != "ov" or has_ov(HOOK_CONFIGS[c][0]))
     out = [mk_hooks(HOOK_CONFIGS[c][0], HOOK_CONFIGS[c][1], ops, "hooks-fixed") for c, ops in HOOK_FIXED if c in names]
+    if focus is None:
+        out += [mk_hooks(c, h, ops, "hooks-live-dict-demo") for c, h, ops in LIVE_DICT_DEMOS]
     n = (260 if focus is None else 160) if tier == "quick" else (8000 if focus is None else 4000)
+    leavers = [c for c in names if any(a[0] == "exit" for h in HOOK_CONFIGS[c][1] for a in h[0])]
     for _ in range(n):
+        if leavers and rng.random() < 0.2:
+            # aimed at the region of the former live-dict defect: a resume() script leaves contexts the task registered later
+            ctxs, hooks = HOOK_CONFIGS[rng.choice(leavers)]
+            out.append(mk_hooks(ctxs, hooks, random_hook_history(rng, ctxs, hooks, rng.randint(3, 12), rng.choice([1.0, 1.0, 0.9]),
+                                                                 members_too=True, prefix=leave_prefix(rng, hooks)), "hooks-leave"))
+            continue
         if rng.random() < 0.6:
             ctxs, hooks = HOOK_CONFIGS[rng.choice(names)]
         else:
@@ -377,7 +420,10 @@ def hook_cases(tier, rng, focus=None):
                 ctxs = random_ctxs(rng)
             hooks = random_hooks(rng, ctxs)
         assert hooks_ok(ctxs, hooks), (ctxs, hooks)
-        out.append(mk_hooks(ctxs, hooks, random_hook_history(rng, ctxs, hooks, rng.randint(3, 18), rng.choice([1.0, 0.95, 0.85, 0.7])),
+        leaves = any(a[0] == "exit" for h in hooks for a in h[0])
+        prefix = leave_prefix(rng, hooks) if leaves and rng.random() < 0.6 else ()
+        out.append(mk_hooks(ctxs, hooks, random_hook_history(rng, ctxs, hooks, rng.randint(3, 18), rng.choice([1.0, 0.95, 0.85, 0.7]),
+                                                             members_too=bool(prefix) or rng.random() < 0.45, prefix=prefix),
                             "hooks-random"))
     return out
 
@@ -845,6 +891,14 @@ def run(case):
             feats.append("ctxhist-has=hook-actions")
         if any(o[1][0] == "revisit" and o[3][1] != "skip" for o in obs):
             feats.append("ctxhist-has=revisit")
+        if any(a[0] == "exit" for h in hooks for a in h[0]):
+            feats.append("ctxhist-has=resume-script-that-leaves")
+        def left_inside(calls):
+            ps = [i for i, c in enumerate(calls) if c[0] == "P"]
+            return bool(ps) and any(c[0] == "R" for c in calls[ps[0] + 1:])
+        if any(o[1][0] in ("continue", "revisit") and left_inside(o[2][1:]) for o in obs):
+            # a pause() in the middle of the library's resume loop: a resume() hook left a context, and the loop went on
+            feats.append("ctxhist-has=context-left-inside-resume-loop")
     if isinstance(final_status, list):
         feats.append("ctxhist-task-failed=" + (final_status[1] if isinstance(final_status[1], str) else final_status[1][0]))
     interesting = any(o[1][0] in ("suspend", "continue", "revisit") and (len(o[2]) > 1 or o[4][1:] != [100 + i for i in range(nvars)]) for o in obs)
@@ -897,7 +951,8 @@ def neighbours(case, rng):
     ctxs = case["ctxs"]
     if case.get("hooks") is not None:
         for _ in range(32):
-            yield mk_hooks(ctxs, case["hooks"], random_hook_history(rng, ctxs, case["hooks"], rng.randint(3, 14), 0.9), "neighbour")
+            yield mk_hooks(ctxs, case["hooks"], random_hook_history(rng, ctxs, case["hooks"], rng.randint(3, 14), 0.9,
+                                                                    members_too=rng.random() < 0.5), "neighbour")
         return
     al = alphabet(len(ctxs))
     ops = case["ops"]
